@@ -98,6 +98,7 @@ type runner struct {
 	ds       *common.Cases // doc-string / annotation cases
 	docCap   int
 	ss       *common.Cases // full lexer state cases
+	is       *common.Cases // import-section cases
 	stToks   int
 	stCap    int
 	stFile   int
@@ -1045,6 +1046,10 @@ Local Open Scope string_scope. Local Open Scope N_scope.`, "doc_case", `Definiti
 Require Import Verif.Front.Indent Verif.Front.Lines Verif.Front.Run Verif.Front.RunState Verif.Base.Harness.
 Local Open Scope N_scope.
 Notation T := true. Notation F := false.`, "st_case", `Definition M := Eval vm_compute in mismatches st_ok cases. Print M.`, 1500)
+	r.is = c.NewCases("C03imp", `From Coq Require Import List NArith Bool. Import ListNotations.
+Require Import Verif.Front.ImportScan Verif.Front.RunImp Verif.Base.Harness.
+Local Open Scope N_scope.
+Notation T := true. Notation F := false.`, "imp_case", `Definition M := Eval vm_compute in mismatches imp_ok cases. Print M.`, 600)
 	r.stCap = 40000
 	if c.Thorough() {
 		r.docCap = 12000
@@ -1054,6 +1059,7 @@ Notation T := true. Notation F := false.`, "st_case", `Definition M := Eval vm_c
 		r.cs.Close()
 		r.ds.Close()
 		r.ss.Close()
+		r.is.Close()
 		c.Res.Extra["tokens_with_full_state_compared_in_coq"] = r.stToks
 		c.Res.Extra["tokens_compared_in_coq"] = r.coqToks
 		c.Res.Extra["doc_cases_compared_in_coq"] = r.ds.N()
@@ -1073,6 +1079,10 @@ Notation T := true. Notation F := false.`, "st_case", `Definition M := Eval vm_c
 				calcProbe(&out, leadOf(lines[1]))
 			}
 			fmt.Fprintf(realOut, "replay calc-probe %q: failures=%d\n", rp.Text, len(out.F))
+			return
+		}
+		if strings.HasPrefix(rp.Name, "import-section") {
+			r.impReplay(rp.Name, rp.Text, func(m string) { fmt.Fprint(realOut, m) })
 			return
 		}
 		toks, ok := lexAll(rp.Text)
@@ -1182,6 +1192,11 @@ Notation T := true. Notation F := false.`, "st_case", `Definition M := Eval vm_c
 	if only == "" {
 		r.calcProbes(L)
 	}
+	// 1b. import sections: the textual pre-scan against the import statements of the full parse
+	if only == "" || only == "imports" {
+		r.importSections()
+		c.Res.Extra["t_imports_s"] = time.Since(t0).Seconds()
+	}
 	c.Res.Extra["calc_probe_max_len"] = L
 
 	// 2. generated specifications (first: they are small, so their token-level cases fit under the cap)
@@ -1222,6 +1237,9 @@ Notation T := true. Notation F := false.`, "st_case", `Definition M := Eval vm_c
 	}
 	if c.Search {
 		nm *= 3
+	}
+	if only != "" {
+		nm = 0
 	}
 	for i := 0; i < nm; i++ {
 		o := renderOpts{sameWidth: c.Rng.Chance(1, 4), blanks: c.Rng.Chance(1, 5), trailNL: !c.Rng.Chance(1, 6), crlf: c.Rng.Chance(1, 25)}
